@@ -129,7 +129,41 @@ class FuncTr:
         t = ts.pop() if ts else "str"
         return "[" + "; ".join(v for v, _ in els) + "]", "list[%s]" % t
 
+    def wrap_pyval(self, v, t, e):
+        """C20: a value stored in a Python dict literal with string keys (unit.pydict mode)."""
+        if t == "pyval":
+            return v
+        if t in ("str", "int", "bool"):
+            return "(%s %s)" % ({"str": "PStr", "int": "PInt", "bool": "PBool"}[t], v)
+        if t == "none":
+            return "PNone"
+        raise Unsupported("dict value of type %s at line %d" % (t, e.lineno))
+
+    def e_ListComp(self, e):
+        if len(e.generators) != 1 or e.generators[0].ifs or not isinstance(e.generators[0].target, ast.Name) \
+                or e.generators[0].is_async:
+            raise Unsupported("list comprehension shape at line %d" % e.lineno)
+        it, itt = self.expr(e.generators[0].iter)
+        if not itt.startswith("list["):
+            raise Unsupported("list comprehension over %s at line %d" % (itt, e.lineno))
+        var = e.generators[0].target.id
+        saved = dict(self.env)
+        self.env[var] = itt[5:-1]
+        body, bt = self.expr(e.elt)
+        self.env = saved
+        return "(map (fun %s => %s) %s)" % (self.unit.ident(var), body, it), "list[%s]" % bt
+
     def e_Dict(self, e):
+        if getattr(self.unit, "pydict", False):
+            if not all(isinstance(k, ast.Constant) and isinstance(k.value, str) for k in e.keys):
+                raise Unsupported("dict literal keys at line %d" % e.lineno)
+            if len({k.value for k in e.keys}) != len(e.keys):
+                raise Unsupported("dict literal with repeated key at line %d" % e.lineno)
+            items = []
+            for k, x in zip(e.keys, e.values):
+                v, t = self.expr(x)
+                items.append("(%s, %s)" % (cstr(k.value), self.wrap_pyval(v, t, e)))
+            return "[" + ";\n      ".join(items) + "]", "pydict"
         vals = [self.expr(x) for x in e.values]
         ts = {t for _, t in vals}
         if len(ts) != 1:
@@ -258,6 +292,8 @@ class FuncTr:
         c, ct = self.expr(e.test)
         a, at = self.expr(e.body)
         b, bt = self.expr(e.orelse)
+        if at != bt and getattr(self.unit, "pydict", False):
+            a, b, at, bt = self.wrap_pyval(a, at, e), self.wrap_pyval(b, bt, e), "pyval", "pyval"
         if at != bt:
             raise Unsupported("conditional expression branches %s/%s at line %d" % (at, bt, e.lineno))
         return "(if %s then %s else %s)" % (self.truth(c, ct, e), a, b), at
@@ -291,6 +327,12 @@ class FuncTr:
             raise Unsupported("isinstance(%s, %s) at line %d" % (t, cls, e.lineno))
         if isinstance(f, ast.Name) and f.id in self.unit.builtins:
             return self.unit.builtins[f.id](self, e)
+        if isinstance(f, ast.Name) and self.unit.cls is None and f.id in self.unit.funcs and not e.keywords:
+            sig = self.unit.funcs[f.id]
+            args = [self.expr(a) for a in e.args]
+            if [t for _, t in args] != list(sig["params"].values()):
+                raise Unsupported("argument types of %s at line %d" % (f.id, e.lineno))
+            return "(%s %s)" % (self.unit.prefix + f.id, " ".join(v for v, _ in args)), sig["ret"]
         if isinstance(f, ast.Attribute):
             # re.match(pattern, s)
             if isinstance(f.value, ast.Name) and f.value.id == "re" and f.attr == "match":
@@ -476,7 +518,8 @@ class Unit:
             return "(list %s)" % self.coq_type(t[5:-1])
         if t.startswith("opt["):
             return "(option %s)" % self.coq_type(t[4:-1])
-        return {"str": "string", "bool": "bool", "int": "Z", "num": "T", "match": "(option string)", "char": "ascii"}[t]
+        return {"str": "string", "bool": "bool", "int": "Z", "num": "T", "match": "(option string)", "char": "ascii",
+                "pydict": "pydict", "pyval": "pyval"}[t]
 
     def float_const(self, v):
         from fractions import Fraction
